@@ -216,7 +216,6 @@ var c13Labels = []rc.Val{rc.Int(1), rc.Int(2), rc.Int(3), rc.Int(4), rc.Int(5), 
 
 var c13Ctxs = []string{"protected", "unprotected", "sign1", "untagged", "signature", "countersignature", "sign-body"}
 
-
 // forEachSingleParamCell enumerates the single-parameter header cells: label x
 // value kind x bucket x context (x every fitting Go spelling of the label when
 // spellings is set).
